@@ -663,6 +663,26 @@ def native_build(g, wd, env):
         [(os.path.join(REPO, s), list(g["native_cflags"])) for s in srcs if not s.endswith("core/util.c")] + \
         [(os.path.join(REPO, s), ["-D" + x for x in d]) for (s, d) in g["extra_units"]]
     for i, (f, extra) in enumerate(units):
+        if f.startswith(REPO + os.sep) or "/stubs/" in f:
+            # repository sources (and stubs) do not depend on the harness parameters: compile once per run and flag set
+            cfg = ["-DVERIF_NATIVE"] + (["-DNDEBUG"] if g["ndebug"] else []) + (["-DSAFE_FAST"] if g["fast"] else [])
+            flags = ["gcc", "-g", "-O1", "-fsanitize=address,undefined", "-fno-sanitize=alignment",
+                     "-fno-sanitize-recover=undefined", "-fno-omit-frame-pointer", "-w"] + inc + cfg + extra
+            key = hashlib.sha1(("\0".join([f] + flags)).encode()).hexdigest()[:16]
+            cdir = os.path.join(WORK, g.get("_pid", "X"), "_ncache")
+            os.makedirs(cdir, exist_ok=True)
+            o = os.path.join(cdir, key + ".o")
+            with _cache_guard:
+                lk = _cache_locks.setdefault(o, threading.Lock())
+            with lk:
+                if not os.path.exists(o):
+                    e2 = dict(env); e2["TMPDIR"] = os.path.join(cdir, "tmp"); os.makedirs(e2["TMPDIR"], exist_ok=True)
+                    rc, out, err, _, to = slot_sh(flags + ["-c", f, "-o", o + ".part.o"], timeout=600, env=e2)
+                    if rc != 0:
+                        raise Infra("native build failed: %s" % (err or out)[-2000:])
+                    os.rename(o + ".part.o", o)
+            objs.append(o)
+            continue
         o = os.path.join(wd, "n%d.o" % i)
         rc, out, err, _, to = slot_sh(base + extra + ["-c", f, "-o", o], timeout=600, env=env)
         if rc != 0:
